@@ -50,6 +50,19 @@ Theorem walk_small_total : forall n a draws,
 Proof. intros n a draws H. unfold sub_seg. apply Z.ltb_lt in H. rewrite H. reflexivity. Qed.
 Print Assumptions walk_small_total.
 
+(* the compiled function on the arrays (indptr, data) is that walk applied to every segment
+   data[indptr[i]:indptr[i+1]] of the ORIGINAL array, the draws consumed in order; nothing outside
+   the segments is written *)
+Theorem kernel_is_walk_per_segment : forall n indptr data N draws,
+  length indptr = S N -> nth 0 indptr 0 = 0 ->
+  (forall i j, i <= j -> j <= N -> nth i indptr 0 <= nth j indptr 0) -> nth N indptr 0 = length data ->
+  let segs := map (fun i => slice data (nth i indptr 0) (nth (S i) indptr 0)) (seq 0 N) in
+  kernel_wo n indptr data draws =
+  (concat (fst (fst (seg_results n segs draws true))), snd (fst (seg_results n segs draws true)),
+   snd (seg_results n segs draws true)).
+Proof. intros n indptr data N draws HL H0 HM HE. exact (kernel_wo_segments n indptr data N HL H0 HM HE draws). Qed.
+Print Assumptions kernel_is_walk_per_segment.
+
 (* Table.subsample(n, axis) without replacement, for every layout the history may have left and
    every sequence of draws meeting numpy's contract:
    the receiver is unchanged; exactly the vectors with total >= n are retained, in order; each
